@@ -124,6 +124,21 @@ def search_c06():
             if not (0 <= p <= 1) or abs(p - want) > 1e-12:
                 return _fail('t_test_0', dict(evaluation=e, variance=v, dof=dof), p, float(want),
                              'the against-zero p-value is not the one-sided t-test of the evaluation')
+    from rsatoolbox.util.inference_util import t_tests
+    for dof in (1, 7):
+        for evs in ([0.5, 0.2], [0.1, 0.4, 0.3], [0.9, -0.2, 0.3, 0.35]):
+            m = len(evs)
+            pairs = [(i, j) for i in range(m) for j in range(i + 1, m)]
+            for scale in (0.0, 1e-20, 0.04, 2.0):
+                var = np.array([scale * (k + 1) for k in range(len(pairs))])
+                p = np.asarray(t_tests(np.array([evs]), var, dof=dof), dtype=float)
+                want = np.ones((m, m))
+                for k, (i, j) in enumerate(pairs):
+                    t = (evs[i] - evs[j]) / np.sqrt(max(var[k], np.finfo(float).eps))
+                    want[i, j] = want[j, i] = 2 * (1 - stats.t.cdf(abs(t), dof))
+                if p.shape != want.shape or not np.all((0 <= p) & (p <= 1)) or np.max(np.abs(p - want)) > 1e-12:
+                    return _fail('t_tests', dict(evaluations=evs, variances=var.tolist(), dof=dof), p.tolist(), want.tolist(),
+                                 'entry (i,j) is not the two-sided t-test of evaluation i - evaluation j with the variance of that pair')
     from rsatoolbox.util.inference_util import t_test_nc
     for dof in (1, 4, 20):
         for evs, nc in itertools.product([[-2.0, 0.3], [0.5, 0.5, 0.9], [0.0]], [-0.5, 0.0, 0.5, 0.7]):
